@@ -8,6 +8,7 @@ import (
 
 func TestWorker(t *testing.T) {
 	sim.WorkerMain(t, map[string]sim.Engine{
-		"C26": {Run: runPex, Nontrivial: func(c *sim.Ctx) bool { return c.Counters["probe.peerlist_checked"] >= 5 }},
+		"C26":  {Run: runPex, Nontrivial: func(c *sim.Ctx) bool { return c.Counters["probe.peerlist_checked"] >= 5 }},
+		"C26c": {Run: runPexConcurrent, Nontrivial: func(c *sim.Ctx) bool { return c.Counters["probe.lock_acquisition_scheduled"] >= 4 }},
 	})
 }
